@@ -819,6 +819,7 @@ class World(object):
                          fmt_req=req, judge_cb=False)
         st.extra['val'] = val
         st.extra['tpl'] = tpl
+        st.extra['cfg_tpl'] = self.cfg_template
         yield
         cbs = self.make_cbs(ncb)
         args = {}
@@ -1865,6 +1866,10 @@ class World(object):
         st.extra['field'] = op['field']
         yield
         setattr(self.obj(d).config, op['field'], None if r is None else self.obj(r))
+        if op.get('method') in ('raw', 'repr'):
+            # ... together with the calculation method of the route the register belongs to
+            setattr(self.obj(d).config, 'array_op_method' if op['field'].startswith('array_') else 'op_method',
+                    op['method'])
         self.bump('register_configured')
 
     def op_bad_ctor(self, st):
